@@ -11,7 +11,7 @@ const (
 	gcStateUnsend
 )
 
-type traverseCallback func(sub *Subscription, state gcState) gcState
+type traverseCallback func(sub *Subscription, state gcState, pending bool) gcState
 
 func (c *wsConn) tryDelete(s *Subscription) {
 	type subRef struct {
@@ -41,20 +41,26 @@ func (c *wsConn) tryDelete(s *Subscription) {
 	}
 
 	// Count down indirect references
-	s.traverse(gcStateRoot, func(s *Subscription, state gcState) gcState {
+	s.traverse(gcStateRoot, false, func(s *Subscription, state gcState, pending bool) gcState {
 		if state == gcStateRoot {
 			return gcStateNone
 		}
 
+		// A reference still loading for an event is not yet counted as sent
+		sd := sentDiff
+		if pending {
+			sd = 0
+		}
+
 		if r, ok := refs[s.RID()]; ok {
 			r.indirect--
-			r.indirectsent -= sentDiff
+			r.indirectsent -= sd
 			return gcStateStop
 		}
 		refs[s.RID()] = &subRef{
 			sub:          s,
 			indirect:     s.indirect - 1,
-			indirectsent: s.indirectsent - sentDiff,
+			indirectsent: s.indirectsent - sd,
 			state:        gcStateNone,
 		}
 		return gcStateNone
@@ -67,7 +73,7 @@ func (c *wsConn) tryDelete(s *Subscription) {
 	}
 
 	// Mark for deletion or unsend
-	s.traverse(gcStateDelete, func(s *Subscription, state gcState) gcState {
+	s.traverse(gcStateDelete, false, func(s *Subscription, state gcState, _ bool) gcState {
 		r := refs[s.RID()]
 
 		// Stop if already kept as sent, or if kept as unsent and not reached
@@ -114,17 +120,17 @@ func (c *wsConn) tryDelete(s *Subscription) {
 	}
 }
 
-func (s *Subscription) traverse(state gcState, cb traverseCallback) {
+func (s *Subscription) traverse(state gcState, pending bool, cb traverseCallback) {
 	if s.direct > 0 {
 		return
 	}
 
-	state = cb(s, state)
+	state = cb(s, state, pending)
 	if state == gcStateStop {
 		return
 	}
 
 	for _, ref := range s.refs {
-		ref.sub.traverse(state, cb)
+		ref.sub.traverse(state, ref.pending, cb)
 	}
 }
